@@ -28,8 +28,24 @@ def main(argv=None) -> int:
     except common.HarnessError as e:
         print(f"HARNESS-ERROR property={args.prop}: {e}")
         return common.EXIT_HARNESS
-    except Exception:
+    except Exception as e:
         traceback.print_exc()
+        # an exception raised by the code under test on an input of the enumeration that no oracle anticipated: the check cannot continue, but
+        # what it found is a failure of the repository's code, not of the harness (interface drift - a missing attribute or module - stays a
+        # harness error: the harness, not the property, is then out of date)
+        frames = traceback.extract_tb(e.__traceback__)
+        repo = os.path.realpath(os.environ.get("VERIF_REPO", "/repo"))
+        inner = os.path.realpath(frames[-1].filename) if frames else ""
+        if inner.startswith(os.path.join(repo, "avocado_i2n")) and not isinstance(e, (ImportError, AttributeError, NameError)) and not args.replay:
+            rep = common.Report(args.prop, args.tier, seed, "aborted: the code under test raised on an enumerated input (no further exploration in this run)")
+            rep.rule = "none: the run ended at the first unanticipated exception of the code under test"
+            rep.exhaustive = False
+            last_harness = next((f for f in reversed(frames) if "/vt/" in f.filename), None)
+            rep.violation(f"the code under test raised {type(e).__name__}: {str(e)[:300]} (at {os.path.relpath(inner, repo)}:{frames[-1].lineno}, "
+                          f"driven from {os.path.basename(last_harness.filename) if last_harness else '?'}:{last_harness.lineno if last_harness else 0})",
+                          {"traceback": traceback.format_exception(type(e), e, e.__traceback__)[-12:]},
+                          {"kind": "unanticipated-exception", "type": type(e).__name__, "where": os.path.relpath(inner, repo)})
+            return rep.finish()
         print(f"HARNESS-ERROR property={args.prop}: unexpected exception in the check itself")
         return common.EXIT_HARNESS
 
